@@ -7,7 +7,11 @@ Registers t0..t3 hold transformed parameters.  The model runs at `Float`
 (bit-exact tie); the verdicts are the Float shadows of the theorems of
 lean/BppProofs/Props/C11.lean evaluated on the *implementation's* answers:
 round trip (`*_roundtrip`), `back_in_domain`, monotonicity (`strict_mono`) and
-finite differences against `d1`, `d2` (`d1_is_derivative`, `d2_is_derivative`).
+finite differences against `d1`, `d2` (`d1_is_derivative`, `d2_is_derivative`); and of
+lean/BppProofs/Props/C11Wrapper.lean for the wrapper ops (`w.new`, `w.newsub` = second constructor,
+`w.set`, `w.touch` = `f()` on current values, `w.d1`, `w.d2`, `w.fd`, `w.fdx`):
+`wrap_preserves_values`, `wrap_nudge`, `set_never_raises`, `set_sync`, `all_histories_accepted`
+(`wrap_near`), `wrapper_back_in_domain`, `chain_rule_1/2/2_cross`.
 -/
 namespace Bpp.Drive.C11
 open Bpp Bpp.Proto Bpp.Transform Bpp.Reparam
